@@ -70,9 +70,11 @@ Section Stream.
                   match take_bytes (N.to_nat l) r1 with
                   | None => None
                   | Some (c, r2) =>
+                      (* decompress_to_buffer into a buffer of P_DECOMPRESS_CAP bytes: a block that
+                         expands beyond it is an error *)
                       match zd c with
                       | None => None
-                      | Some d => read_blocks f r2 (acc ++ d)
+                      | Some d => if len d <=? P_DECOMPRESS_CAP then read_blocks f r2 (acc ++ d) else None
                       end
                   end
               end
